@@ -21,7 +21,7 @@ impl SpeechGenerator {
     /// This function will panic unless all the following conditions are met:
     /// - The outer length of spectrum, lf0, and lpf are the same.
     /// - The inner length of LF0 must be 1.
-    /// - The inner length of LPF must be an odd number.
+    /// - The inner length of LPF must be an odd number (or zero when there is no low-pass stream).
     pub fn new(
         fperiod: usize,
         vocoder: Vocoder,
@@ -35,7 +35,7 @@ impl SpeechGenerator {
         if !lf0.is_empty() && lf0[0].len() != 1 {
             panic!("The size of lf0 static vector must be 1.");
         }
-        if !lpf.is_empty() && lpf[0].len() % 2 == 0 {
+        if !lpf.is_empty() && !lpf[0].is_empty() && lpf[0].len() % 2 == 0 {
             panic!("The number of low-pass filter coefficient must be odd numbers.");
         }
 
